@@ -37,7 +37,7 @@ def run(ctx):
     if T:
         q = q + ctx.tlc_gen("MC_PNQueue", "Gen_PNQueue2.cfg", num=1500, depth=15)
     ctx.write_scenarios("pnqueue", q)
-    s = ctx.tlc_gen("MC_Bbr", "Gen_Bbr.cfg", num=2000 if T else 60, depth=14)
+    s = ctx.tlc_gen("MC_Bbr", "Gen_Bbr.cfg", num=1500 if T else 60, depth=14)
     ctx.write_scenarios("bbr", s)
     ctx.go_test("core", "./internal/congestion/bbr/", "TestVerif_C12", ["harness/core/internal/congestion/bbr/c12_queue_test.go",
                                                                           "harness/core/internal/congestion/bbr/c12_bbr_test.go"])
